@@ -36,8 +36,8 @@ func (h *NFSProcedureHandler) handleReaddir(body io.Reader, reply *RPCReply, aut
 	}
 
 	// Rate limiting (after body consumption to prevent stream desync)
-	if h.server.handler.rateLimiter != nil && h.server.handler.policy.Load().EnableRateLimiting {
-		if !h.server.handler.rateLimiter.AllowOperation(authCtx.ClientIP, OpTypeReaddir) {
+	if rl := h.server.handler.rateLimiter.Load(); rl != nil && h.server.handler.policy.Load().EnableRateLimiting {
+		if !rl.AllowOperation(authCtx.ClientIP, OpTypeReaddir) {
 			if h.server.handler.metrics != nil {
 				h.server.handler.metrics.RecordRateLimitExceeded()
 			}
@@ -167,8 +167,8 @@ func (h *NFSProcedureHandler) handleReaddirplus(body io.Reader, reply *RPCReply,
 	}
 
 	// Rate limiting (after body consumption to prevent stream desync)
-	if h.server.handler.rateLimiter != nil && h.server.handler.policy.Load().EnableRateLimiting {
-		if !h.server.handler.rateLimiter.AllowOperation(authCtx.ClientIP, OpTypeReaddir) {
+	if rl := h.server.handler.rateLimiter.Load(); rl != nil && h.server.handler.policy.Load().EnableRateLimiting {
+		if !rl.AllowOperation(authCtx.ClientIP, OpTypeReaddir) {
 			if h.server.handler.metrics != nil {
 				h.server.handler.metrics.RecordRateLimitExceeded()
 			}
